@@ -251,10 +251,14 @@ impl AtomicValueFlags {
         // Calling fetch_or on our atomic requires that we gain exclusive access to the cache line
         // containing the atomic. If all the bits are already set, then that's wasteful, so we first
         // check if the bits are set and if they are, we skip the fetch_or call.
+        #[cfg(feature = "verif")]
+        crate::verif::sched::point("flags.load", std::ptr::from_ref(self) as usize);
         let current_bits = self.0.load(atomic::Ordering::Relaxed);
         if current_bits & flags.bits() == flags.bits() {
             return ValueFlags::from_bits_retain(current_bits);
         }
+        #[cfg(feature = "verif")]
+        crate::verif::sched::point("flags.fetch_or", std::ptr::from_ref(self) as usize);
         let previous_bits = self.0.fetch_or(flags.bits(), atomic::Ordering::Relaxed);
         ValueFlags::from_bits_retain(previous_bits)
     }
@@ -264,10 +268,14 @@ impl AtomicValueFlags {
     }
 
     pub(crate) fn or_assign(&self, flags: ValueFlags) {
+        #[cfg(feature = "verif")]
+        crate::verif::sched::point("flags.or_assign", std::ptr::from_ref(self) as usize);
         self.0.fetch_or(flags.bits(), Ordering::Relaxed);
     }
 
     pub(crate) fn remove(&self, flags_to_remove: ValueFlags) {
+        #[cfg(feature = "verif")]
+        crate::verif::sched::point("flags.remove", std::ptr::from_ref(self) as usize);
         self.0.fetch_and(!flags_to_remove.bits(), Ordering::Relaxed);
     }
 }
